@@ -424,7 +424,7 @@ def fde_msgs(cfg, res):
         if not np.allclose(f.var_test[col].values, want, rtol=1e-10):
             msgs.append("var_test[%s] = %s, response variance to the %s level (Miles or pvelo analogue) = %s" % (col, f.var_test[col].values.tolist(), g, want.tolist()))
     # amplitude scaling
-    for sc in (2.0, 0.5):
+    for sc in (2.0, 0.5, 2.0**20, 2.0**-20):  # powers of two: the scaling is exact, units from micro to mega
         f2 = fdepsd.fdepsd(sc * sig, sr, freq, Q, **kw)
         if not np.allclose(f2.psd.values, sc**2 * psd.values, rtol=1e-9, atol=0):
             msgs.append("PSD outputs do not scale with amplitude^2 (scale %g): ratio %s" % (sc, (f2.psd.values / psd.values).tolist()))
